@@ -219,6 +219,20 @@ func (g *G) collidingKeys(n, bits int, prefix string) [][]byte {
 	return out
 }
 
+// collidingKeysAt: n keys whose hashes have the given low bits.
+func (g *G) collidingKeysAt(n, bits int, target uint32, prefix string) [][]byte {
+	mask := uint32(1)<<uint(bits) - 1
+	target &= mask
+	var out [][]byte
+	for i := 0; len(out) < n && i < 40_000_000; i++ {
+		k := []byte(fmt.Sprintf("%s%d", prefix, i))
+		if g.hash(k)&mask == target {
+			out = append(out, k)
+		}
+	}
+	return out
+}
+
 // fullCollisions returns groups of keys with identical 32-bit hashes (birthday search).
 func (g *G) fullCollisions(groups int, prefix string) [][]byte {
 	seen := map[uint32][]byte{}
